@@ -20,7 +20,9 @@ import (
 	"io"
 	"os"
 	"os/exec"
+	"runtime/debug"
 	"strings"
+	"sync/atomic"
 	"syscall"
 	"time"
 
@@ -76,6 +78,15 @@ func newTotWorld(cfg string) *totWorld {
 	for n, t := range vars {
 		pkg.NewVar(token.NoPos, t, n)
 	}
+	// recursive type shapes: type A struct{*B; x int}; type B struct{*A; y int}; type L []L
+	ta, tb, tl := pkg.NewType("CycA"), pkg.NewType("CycB"), pkg.NewType("RecL")
+	na, nb := ta.Type(), tb.Type()
+	ta.InitType(pkg, types.NewStruct([]*types.Var{types.NewField(token.NoPos, pkg.Types, "CycB", types.NewPointer(nb), true), types.NewField(token.NoPos, pkg.Types, "x", ti, false)}, nil))
+	tb.InitType(pkg, types.NewStruct([]*types.Var{types.NewField(token.NoPos, pkg.Types, "CycA", types.NewPointer(na), true), types.NewField(token.NoPos, pkg.Types, "y", ti, false)}, nil))
+	nl := tl.InitType(pkg, types.NewSlice(tl.Type()))
+	pkg.NewVar(token.NoPos, na, "vcyc")
+	pkg.NewVar(token.NoPos, types.NewPointer(na), "vcycptr")
+	pkg.NewVar(token.NoPos, nl, "vrecslice")
 	terr := types.Universe.Lookup("error").Type()
 	pkg.NewFunc(nil, "f2", nil, types.NewTuple(types.NewParam(token.NoPos, pkg.Types, "", ti), types.NewParam(token.NoPos, pkg.Types, "", terr)), false).
 		BodyStart(pkg).Val(0).Val(nil).Return(2).End()
@@ -88,7 +99,7 @@ func (w *totWorld) push(cls string) {
 	ref := func(n string) types.Object { return w.pkg.Types.Scope().Lookup(n) }
 	lit := func(s string) { cb.Val(&ast.BasicLit{Kind: token.INT, Value: s}) }
 	switch cls {
-	case "int", "int8", "uint", "float", "string", "bool", "slice", "array", "map", "chan", "ptr", "func", "struct", "iface", "named":
+	case "int", "int8", "uint", "float", "string", "bool", "slice", "array", "map", "chan", "ptr", "func", "struct", "iface", "named", "cyc", "cycptr", "recslice":
 		cb.Val(ref("v" + cls))
 	case "c0":
 		cb.Val(0)
@@ -280,6 +291,7 @@ func totChild() {
 	var lim syscall.Rlimit
 	lim.Cur, lim.Max = 6<<30, 6<<30
 	syscall.Setrlimit(syscall.RLIMIT_AS, &lim)
+	debug.SetMaxStack(128 << 20) // unbounded recursion dies in about a second instead of after growing a 1 GB stack
 	sc := bufio.NewScanner(os.Stdin)
 	sc.Buffer(make([]byte, 1<<20), 1<<20)
 	out := bufio.NewWriter(os.Stdout)
@@ -323,6 +335,8 @@ func totGroup(c string) string {
 		return "huge-constant"
 	case "c2p40":
 		return "constant-2^40"
+	case "cyc", "cycptr", "recslice":
+		return "recursive-type"
 	case "-":
 		return "-"
 	}
@@ -467,6 +481,7 @@ func runC17(tier, replay string) {
 	counts := map[string]int64{}
 	var slowest int64
 	slowKey := ""
+	skipped := 0
 	report := func(p totPoint, kind, msg string) {
 		cls := fmt.Sprintf("%s/%s [%s, %s] %s", kind, p.Op, totGroup(p.X), totGroup(p.Y), totMsgClass(msg))
 		run.Fail(cls, fmt.Sprintf("%s on operands (%s, %s) in configuration %s: %s", p.Op, p.X, p.Y, p.Cfg, msg), p)
@@ -490,6 +505,8 @@ func runC17(tier, replay string) {
 	}
 	outc := make(chan done, len(jobs))
 	sem := make(chan struct{}, 6)
+	var deaths int32
+	const maxDeaths = 12
 	for _, j := range jobs {
 		go func(j job) {
 			sem <- struct{}{}
@@ -497,6 +514,13 @@ func runC17(tier, replay string) {
 			d := done{j: j, results: make([]totResult, j.to-j.from)}
 			pos := j.from
 			for pos < j.to {
+				if atomic.LoadInt32(&deaths) >= maxDeaths {
+					// enough confirmed worker deaths to fail the run: the remaining points of this job are not executed
+					for k := pos; k < j.to; k++ {
+						d.results[k-j.from] = totResult{outcome: "skipped"}
+					}
+					break
+				}
 				rs, died, why := totRunBatch(points[pos:j.to], 20*time.Second)
 				copy(d.results[pos-j.from:], rs)
 				if died < 0 {
@@ -509,6 +533,7 @@ func runC17(tier, replay string) {
 				}
 				_, died2, why2 := totRunBatch(points[idx:idx+1], 20*time.Second)
 				if died2 >= 0 {
+					atomic.AddInt32(&deaths, 1)
 					d.died = append(d.died, idx)
 					d.why = append(d.why, why+" / alone: "+why2)
 					d.results[idx-j.from] = totResult{outcome: "fatal", msg: why2}
@@ -524,6 +549,10 @@ func runC17(tier, replay string) {
 		d := <-outc
 		for i, r := range d.results {
 			p := points[d.j.from+i]
+			if r.outcome == "skipped" {
+				skipped++
+				continue
+			}
 			run.Eval(p.key())
 			counts[r.outcome]++
 			if r.ms > slowest {
@@ -543,6 +572,12 @@ func runC17(tier, replay string) {
 					report(p, "slow-operation", fmt.Sprintf("took %d ms", r.ms))
 				}
 			}
+		}
+	}
+	if skipped > 0 {
+		run.Set("not_executed", fmt.Sprintf("%d points were not executed: the run stopped after %d confirmed worker deaths", skipped, maxDeaths))
+		if atomic.LoadInt32(&deaths) < maxDeaths {
+			run.Infra(fmt.Errorf("%d points skipped without the death limit being reached", skipped))
 		}
 	}
 	run.Sample(map[string]any{"point": points[len(points)/3], "meaning": "operation applied to operand classes in a configuration; outcome must be ok or a reported error"})
